@@ -227,7 +227,16 @@ Record job := {
                                   not read by any ordering function, read by the capacity gate (Model/QuotaGate.v) *)
   j_req : list Z;              (* what the tasks to allocate ask for, per resource of rs.AllResources
                                   (cpu, memory, gpu), in thousandths; read by the capacity gate only *)
+  j_last_start : option Z;     (* PodGroupInfo.LastStartTimestamp (restored by SetPodGroup from the annotation
+                                  kai.scheduler/last-start-timestamp; None = nil): the last time the scheduler
+                                  started the job. NOT read by any ordering function (Session.JobOrderFn compares
+                                  CreationTimestamp, then UID), nor by the gate; only the minruntime plugin reads it *)
 }.
+
+(** the job with another last-start stamp (nothing else changes) *)
+Definition set_last_start (j : job) (ls : option Z) : job :=
+  {| j_uid := j_uid j; j_queue := j_queue j; j_prio := j_prio j; j_subgroups := j_subgroups j;
+     j_ctime := j_ctime j; j_shape := j_shape j; j_pre := j_pre j; j_req := j_req j; j_last_start := ls |}.
 
 (** priority.JobOrderFn *)
 Definition priority_cmp (l r : job) : Z :=
@@ -268,6 +277,28 @@ Fixpoint job_order_fn (fns : list (job -> job -> Z)) (l r : job) : bool :=
 
 Definition default_job_order_fns : list (job -> job -> Z) := [priority_cmp; elastic_cmp].
 Definition job_less : job -> job -> bool := job_order_fn default_job_order_fns.
+
+(** Session.JobOrderFn with the FIFO fallback reading "in line since" instead of the
+    creation time: a job that was started once ([j_last_start] later than its
+    creation) and holds no active allocated pod queues from its last start. NOT the
+    code; it is the shape of seeded change C16-5. Kept only for the documented
+    refutation (C16_in_line_since_refuted); nothing in the model uses it. *)
+Definition active_allocated (j : job) : Z := fold_right (fun s acc => fst s + acc) 0 (j_subgroups j).
+Definition in_line_since (j : job) : Z :=
+  match j_last_start j with
+  | Some ls => if (active_allocated j =? 0) && (j_ctime j <? ls) then ls else j_ctime j
+  | None => j_ctime j
+  end.
+Fixpoint job_order_fn_in_line_since (fns : list (job -> job -> Z)) (l r : job) : bool :=
+  match fns with
+  | f :: rest =>
+      let c := f l r in
+      if c =? 0 then job_order_fn_in_line_since rest l r else c <? 0
+  | [] =>
+      if in_line_since l =? in_line_since r then j_uid l <? j_uid r
+      else in_line_since l <? in_line_since r
+  end.
+Definition job_less_in_line_since : job -> job -> bool := job_order_fn_in_line_since default_job_order_fns.
 
 (** * JobsOrderByQueues *)
 Record qinfo := {
